@@ -14,6 +14,7 @@ Definition ctx := list (string * ty).
 Definition sigma := prim -> option ty.
 
 Definition shift_ctx (G : ctx) : ctx := map (fun xt => (fst xt, shift 0 (snd xt))) G.
+Definition shiftR_ctx (G : ctx) : ctx := map (fun xt => (fst xt, shiftR 0 (snd xt))) G.
 
 (* Subtyping, as core/src/typecheck/subtyping.rs: one axiom (a record whose fields all have a subtype
    of U is a dictionary {_ : U}), reflexivity, and congruence on arrays, dictionaries and records. *)
@@ -28,7 +29,8 @@ with rows_sub_all : rows -> ty -> Prop :=
 | SA_cons : forall f T r U, sub T U -> rows_sub_all r U -> rows_sub_all (RCons f T r) U
 with rows_sub : rows -> rows -> Prop :=
 | SR_nil : rows_sub RNil RNil
-| SR_cons : forall f T U r s, sub T U -> rows_sub r s -> rows_sub (RCons f T r) (RCons f U s).
+| SR_cons : forall f T U r s, sub T U -> rows_sub r s -> rows_sub (RCons f T r) (RCons f U s)
+| SR_var : forall n, rows_sub (RVar n) (RVar n).
 
 Scheme sub_mut := Minimality for sub Sort Prop
 with rows_sub_all_mut := Minimality for rows_sub_all Sort Prop
@@ -49,16 +51,15 @@ Section Typing.
   | T_If : forall G c t e T, has_type G c TBool -> has_type G t T -> has_type G e T ->
            has_type G (If c t e) T
   | T_Arr : forall G es T, has_types G es T -> has_type G (Arr es) (TArr T)
-  | T_Rec : forall G fs r, has_fields G fs r -> has_type G (Rec fs) (TRec r)
+  | T_Rec : forall G fs r, NoDup (map fst fs) -> has_fields G fs r -> has_type G (Rec fs) (TRec r)
   | T_Proj : forall G e f r T, has_type G e (TRec r) -> rows_lookup f r = Some T ->
              has_type G (Proj e f) T
-  | T_Tag : forall G t r, erows_lookup t r = Some None -> has_type G (Tag t) (TEnum r)
-  | T_Variant : forall G t e r A, erows_lookup t r = Some (Some A) -> has_type G e A ->
+  | T_Tag : forall G t r, erows_lookup t false r = Some None -> has_type G (Tag t) (TEnum r)
+  | T_Variant : forall G t e r A, erows_lookup t true r = Some (Some A) -> has_type G e A ->
                 has_type G (Variant t e) (TEnum r)
   | T_Match : forall G e bs r T,
       has_type G e (TEnum r) -> has_branches G r bs T ->
-      (forall t p, erows_lookup t r = Some p ->                    (* exhaustive *)
-         find_branch t (match p with Some _ => true | None => false end) bs <> None) ->
+      (forall t a p, erows_lookup t a r = Some p -> find_branch t a bs <> None) ->     (* exhaustive *)
       has_type G (Match e bs None) T
   | T_MatchD : forall G e bs d r T,
       has_type G e (TEnum r) -> has_branches G r bs T -> has_type G d T ->
@@ -70,6 +71,8 @@ Section Typing.
   | T_Gen : forall G e T, has_type (shift_ctx G) e T -> has_type G e (TForall T)
   | T_Inst : forall G e T S, has_type G e (TForall T) -> has_type G e (subst 0 S T)
   | T_Sub : forall G e A B, has_type G e A -> sub A B -> has_type G e B
+  | T_GenR : forall G e T, has_type (shiftR_ctx G) e T -> has_type G e (TForallR T)
+  | T_InstR : forall G e T R, has_type G e (TForallR T) -> has_type G e (substR 0 R T)
   with has_types : ctx -> list tm -> ty -> Prop :=
   | HT_nil : forall G T, has_types G [] T
   | HT_cons : forall G e es T, has_type G e T -> has_types G es T -> has_types G (e :: es) T
@@ -82,7 +85,7 @@ Section Typing.
   | HB_bare : forall G r t b bs T, has_type G b T -> has_branches G r bs T ->
               has_branches G r ((t, None, b) :: bs) T
   | HB_arg : forall G r t x b bs A T,
-      erows_lookup t r = Some (Some A) ->          (* the binder has the payload type of its tag *)
+      erows_lookup t true r = Some (Some A) ->     (* the binder has the payload type of its tag *)
       has_type ((x, A) :: G) b T -> has_branches G r bs T ->
       has_branches G r ((t, Some x, b) :: bs) T.
 
